@@ -38,6 +38,7 @@ macro_rules! dispatch {
             "C04" => $f::<props::c04::C04>($($arg),*),
             "C16" => $f::<props::c16::C16>($($arg),*),
             "C10" => $f::<props::c10::C10>($($arg),*),
+            "C15" => $f::<props::c15::C15>($($arg),*),
             "C14" => $f::<props::c14::C14>($($arg),*),
             "C06" => $f::<props::hist::C06>($($arg),*),
             "C09" => $f::<props::hist::C09>($($arg),*),
